@@ -14,3 +14,20 @@ Theorem c12_loops : forall e, src_env e -> forall progs, wf_progs progs -> foral
 Proof. exact all_C12. Qed.
 Print Assumptions c12_loops.
 
+
+(** the last clause: combining the per-thread results of fold with an associative and commutative
+    operation and its neutral element gives the sequential fold of the source *)
+From Coq Require Import List.
+From OCI.proofs Require Import Fold.
+Theorem c12_fold_combination : forall e, src_env e -> forall progs, wf_progs progs -> forall sched,
+  nowrap (c_labels (exec e (init progs) sched)) ->
+  let tr := c_trace (exec e (init progs) sched) in
+  let L := nodup Nat.eq_dec sched in
+  has_skip tr || has_panic tr = false ->
+  end_reported tr = true -> n_pending tr = 0%Z ->
+  forall (M : Type) (op : M -> M -> M) (unit_ : M) (f : N -> M),
+  (forall a b c, op a (op b c) = op (op a b) c) -> (forall a b, op a b = op b a) -> (forall a, op unit_ a = a) ->
+  mfold M op unit_ (map (fun t => mfold M op unit_ (map f (positions_of (cov_of e t tr)))) L) =
+  mfold M op unit_ (map f (source_positions (e_len e))).
+Proof. exact fold_combination. Qed.
+Print Assumptions c12_fold_combination.
